@@ -721,6 +721,21 @@ func (g *gen) genAggRule(h PredInfo, env *varEnv) (Rule, bool) {
 			body = append(body, Lit{K: LGe, Args: []Expr{V(v), C(g.constOf(TInt))}})
 		}
 	}
+	// a value computed in the body (written either way round) that the reducers then prefer
+	if r.OneIn(3, "gen.agg.eqbind") {
+		y := fmt.Sprintf("X%d", env.n)
+		env.n++
+		var e Expr = C(g.constOf(TInt))
+		if v, ok := g.pickVar(env, TInt, "gen.agg.eqvar"); ok && !r.OneIn(4, "gen.agg.eqconst") {
+			e = Fn("fn:plus", V(v), C(IntV(int64(1+r.Choose(3, "gen.agg.eqk")))))
+		}
+		if r.Bool("gen.agg.eqflip") {
+			body = append(body, Lit{K: LEq, Args: []Expr{e, V(y)}})
+		} else {
+			body = append(body, Lit{K: LEq, Args: []Expr{V(y), e}})
+		}
+		env.byType[TInt] = append([]string{y}, env.byType[TInt]...)
+	}
 	do := &Do{}
 	var hargs []Expr
 	usedKey := map[string]bool{}
